@@ -33,7 +33,7 @@ CASE_TIMEOUT = 30.0
 MOD = __name__
 META = {
     "rule": "Hypothesis rule-based state machine: histories of <=30 (quick) / <=50 (thorough) operations parse / & / | / reparse / "
-    "variant over 35 base atoms x 4 spellings; every step is a probe compared warm vs cold. Non-trivial = a probe whose "
+    "variant over 37 base atoms x 4 spellings; every step is a probe compared warm vs cold. Non-trivial = a probe whose "
     "history contains, before it, an operation using one of the probe's atoms in a different spelling (equal but differently "
     "built operand); distinct by (history prefix, probe).",
     "assumptions": [
@@ -60,6 +60,8 @@ BASE = [
     ("python_version", ">", "3.10"), ("platform_release", "<", "5.4"), ("platform_release", ">", "5.4"),
     # ~= reads the number of segments: ~=3.8 is [3.8, 4.0), ~=3.8.0 is [3.8.0, 3.9.0) - equal versions, different atoms
     ("python_version", "~=", "3.8.0"),
+    # blanks inside the quotes: not part of the version, but part of the text
+    ("python_version", ">=", " 3.8"), ("python_full_version", "<", "3.9.1 "),
 ]
 REFL = M.REFLECT
 # atom pools of one history: related atoms (same variable, bounds one ~= step apart, X.Y / X.Y.0 twins) so that
@@ -72,6 +74,7 @@ FAMILIES = [
     [29, 30, 23, 2],
     [1, 31, 17, 5], [32, 33, 13],
     [26, 34, 2, 23],
+    [35, 1, 9, 36],
 ]
 
 
@@ -318,7 +321,7 @@ def tasks(tier, seed):
     steps = 30 if tier == "quick" else 50
     t = [(MOD, "machines", (n // shards, seed * 1_000_003 + i, steps)) for i in range(shards)]
     t += [(MOD, "hashseed", (f, 4 if tier == "quick" else 8)) for f in ([0, 16, 12] if tier == "quick" else range(len(FAMILIES)))]
-    fams = range(len(FAMILIES)) if tier == "thorough" else [0, 2, 7, 12, 13, 15, 19, 20, 22]
+    fams = range(len(FAMILIES)) if tier == "thorough" else [0, 2, 7, 12, 13, 15, 19, 20, 22, 23]
     t += [(MOD, "two_step", (f, sh, 4, tier == "thorough" or f in (2, 20))) for f in fams for sh in range(4)]
     if tier == "thorough":
         t += [(MOD, "fresh", (seed * 77 + i, 20)) for i in range(16)]
